@@ -8,6 +8,7 @@ and the OEIS row for n = 6 as a constant anchor.
 """
 import itertools
 import random
+from fractions import Fraction
 from math import comb
 
 import networkx as nx
@@ -17,14 +18,14 @@ from ..exactpoly import P, percolation_poly, percolation_counts, percolation_val
 
 ID = "C16"
 RULE = ("clique equation tau = 2..6 (quick) / 2..7 (thorough) with distinct symbolic neighbour values, and float spot checks with heterogeneous "
-        "values; chordless cycle equation n = 3..12 (quick) / 3..16 (thorough); Q(n,k) for all 1 <= n <= 10 (quick) / 14 (thorough) and all k in "
+        "values plus a grid of special points (0, 1, 2, -1, 1/2, 1/4, 4, ..., and pairs with phi*u == 1 exactly) evaluated in exact rationals; chordless cycle equation n = 3..12 (quick) / 3..16 (thorough); Q(n,k) for all 1 <= n <= 10 (quick) / 14 (thorough) and all k in "
         "[-1, C(n,2)+1]; QQ(n,k) for n <= 5 (quick) / 6 (thorough); number_of_connected_graphs on random substrates with <= 7 vertices, random "
         "vertex subsets containing the focal vertex, all k; non-trivial = tau >= 3 / n >= 4 / n >= 3 / induced subgraph with a cycle; "
         "distinct = SHA-1 of the concrete arguments")
 ASSUMPTIONS = ["polynomial identity after full expansion", "connected labelled graph counts from the recurrence C_n(y) = (1+y)^C(n,2) - sum_j C(n-1,j-1) C_j(y) (1+y)^C(n-j,2)"]
-HEADLINE = ["clique_identities", "cycle_identities", "float_checks", "Q_values", "QQ_values", "counter_checks", "oeis_anchor", "shadow_unsupported"]
+HEADLINE = ["clique_identities", "cycle_identities", "float_checks", "Q_values", "QQ_values", "counter_checks", "oeis_anchor", "shadow_unsupported", "special_point_checks"]
 REQUIRED = {t: {"clique_identities_or_numeric": 4, "cycle_identities_or_numeric": 8, "Q_values": 150, "QQ_values": 20, "counter_checks": 200, "oeis_anchor": 1,
-                "float_checks": 50} for t in ("quick", "thorough")}
+                "float_checks": 50, "special_point_checks": 500} for t in ("quick", "thorough")}
 SHARD_TIMEOUT = {"quick": 900, "thorough": 10800}
 OEIS_N6 = [1, 15, 105, 455, 1365, 2997, 4945, 6165, 5700, 3660, 1296, 0]   # connected labelled graphs, 6 vertices, 15..4 edges
 
@@ -145,6 +146,19 @@ def run_case(case):
                 v2 = sut("clique_equation(float, permuted H)", clique_equation, tau, phi, perm)
                 if abs(float(v2) - w) > 1e-10:
                     res.violate("clique-equation-depends-on-neighbour-order", tau=tau, phi=phi, got=float(v2), want=w); break
+            # special points: "all real phi and neighbour values" - values where a closed form or a shortcut could branch
+            if res.verdict == "held":
+                SP = [0, 1, 2, -1, Fraction(1, 2), Fraction(1, 4), 4, Fraction(-1, 2)]
+                for _ in range(40):
+                    phi = rng.choice(SP)
+                    us = {j: rng.choice(SP) for j in range(1, tau)}
+                    if rng.random() < 0.5 and tau > 2 and phi not in (0,):
+                        us[1] = Fraction(1) / Fraction(phi)              # phi * H == 1 exactly
+                    v = sut("clique_equation(special point)", clique_equation, tau, phi, [us[j] for j in range(1, tau)])
+                    w = want.subs({"phi": float(phi), **{"u%d" % j: float(x) for j, x in us.items()}})
+                    res.count("special_point_checks")
+                    if abs(float(v) - w) > 1e-9 * max(1.0, abs(w)):
+                        res.violate("clique-equation-differs-at-a-special-point", tau=tau, phi=str(phi), H={j: str(x) for j, x in us.items()}, got=float(v), want=w); break
         res.nontrivial = tau >= 3
         res.sample = {"kind": k, "tau": tau, "terms": want.nterms()}
     elif k == "cycle":
@@ -172,6 +186,17 @@ def run_case(case):
                 res.count("float_checks")
                 if abs(float(v) - w) > 1e-10:
                     res.violate("cycle-equation-differs(float)", n=n, phi=phi, u=u, got=float(v), want=w); break
+            if res.verdict == "held":
+                SP = [0, 1, 2, -1, Fraction(1, 2), Fraction(1, 4), 4, Fraction(-1, 2), -2, Fraction(1, 3), 3]
+                for phi in SP:
+                    for u in SP + ([Fraction(1) / Fraction(phi)] if phi else []):
+                        v = sut("chordless_cycle_equation(special point)", chordless_cycle_equation, n, u, phi)
+                        w = want.subs({"phi": float(phi), "u": float(u)})
+                        res.count("special_point_checks")
+                        if abs(float(v) - w) > 1e-9 * max(1.0, abs(w)):
+                            res.violate("cycle-equation-differs-at-a-special-point", n=n, phi=str(phi), u=str(u), got=float(v), want=w); break
+                    if res.verdict != "held":
+                        break
         res.nontrivial = n >= 4
         res.sample = {"kind": k, "n": n}
     elif k == "Q":
